@@ -9,11 +9,83 @@ BASELINE_OFF = ("cd /repo && go build ./... && go test -mod=mod -json -vet=off -
 
 # id -> (technique, level text, level note, design ref)
 CLAIMS = {
+    "C02": (
+        "origin tracing of the request metadata and negotiated server cells, dominating membership facts, read=>delete pairing on header maps, constant folding of envelope encoders/decoders over all 256 flag bytes, origin equality between envelope length and payload bound, dominating limit checks for narrowing conversions",
+        "Structural necessary conditions of 'the backend sees a valid request in a protocol/codec/compression it accepts', decided for every path and every call site (C02.1-C02.7). Level 'other': a rule set over the SSA form; values of headers and payload bytes are not decided.",
+        "Trusts go/types + go/ssa, the constant folder in checker/vg/fold.go (pure integer/boolean fragments only), the wire-format reference tables in checker/vg/envelope.go.",
+        "DESIGN.md section 6, C02",
+    ),
+    "C03": (
+        "who-may-call over the call graph, dominating guard facts (endWritten / headersFlushed / error cell), must-pass of flag stores on every exit path, origin equality envelope length <-> bound, Content-Length <-> written buffer pairing",
+        "Structural necessary conditions of 'exactly one valid terminal disposition, frames and Content-Length agree with the bytes written' (C03.1-C03.6), decided path-completely. Level 'other'.",
+        "Trusts go/types + go/ssa and the module call graph. Does not decide validity of body bytes or declared compression for un-enveloped clients.",
+        "DESIGN.md section 6, C03",
+    ),
+    "C04": (
+        "interval analysis of table indices under dominating comparisons, extraction of the RPC->HTTP literal and constant folding of the HTTP->RPC switch over 100..599 compared with the published mapping, constant folding of the percent-escape predicate over all 256 bytes, reachability of the mapping from every server protocol, writer/reader key-set agreement",
+        "Decides that no out-of-range code can index past the tables, that both code tables equal the published mapping for every input in their finite domain, that all five backends use them, and that gRPC status keys / percent-encoding are written and read as pairs (C04.1-C04.5). Level 'other'; tables are finite so the table clauses are exhaustive.",
+        "Trusts the reference tables transcribed in checker/vg/c04.go from the Connect/gRPC specifications, and the folder's integer semantics.",
+        "DESIGN.md section 6, C04",
+    ),
+    "C05": (
+        "effect enumeration of every http.Header mutation reachable from ServeHTTP, classification by key origin (constant control key vs. key derived from a ranged header entry), move-deletes-source pairing, consumption of responseEnd.trailers by every RPC client encoder, read=>delete pairing of gRPC status keys",
+        "Frame condition: nothing but protocol control keys and whole-entry relocations ever changes a header map, on either leg, for any key set (C05.1-C05.4). Level 'other'.",
+        "Trusts the control-key table in checker/vg/c05.go and net/http's TrailerPrefix contract. Does not decide canonicalisation of arbitrary keys or -bin value encoding.",
+        "DESIGN.md section 6, C05",
+    ),
+    "C06": (
+        "encoding-class origin tracing of the matcher's path argument, who-may-decode under the matcher, path-sensitive enumeration of the trie walk (short-circuit conditions resolved per path), dominating 'no existing entry' facts for table stores",
+        "Decides that the matcher sees the still-encoded path and decodes captures once, the literal/*/** precedence with 405 semantics, 404-vs-success construction, and that no route or method entry is ever overwritten (C06.1-C06.4). Level 'other'.",
+        "Trusts net/url's EscapedPath contract. Does not decide the template grammar or capture arithmetic.",
+        "DESIGN.md section 6, C06",
+    ),
+    "C07": (
+        "return-origin check of the parameter setter, AST extraction of the two protoreflect.Kind switches compared with every declared Kind, path ordering of the three binding phases, source-coverage agreement between the needs-preparation predicate and the preparer",
+        "Only necessary clauses are decided (C07.1-C07.4); the to-REST-and-back identity itself is a value property and is not decided. Level 'other' (narrow).",
+        "Trusts go/types constant values for the Kind enumeration.",
+        "DESIGN.md section 6, C07",
+    ),
+    "C12": (
+        "may-return fixpoint of the 'no timeout' sentinel over the call graph with errors.Is filtering facts, dominating facts at every store of the deadline cell, whole-struct copy check, sibling agreement of the five target encoders and six extractors, operator whitelist on the numeric path of each duration encoder, constant folding of the gRPC unit table",
+        "Decides that the unbounded-sentinel can never become a rejection, that the deadline cell is written only by successful extraction and reaches the encoder unmodified, that every target encodes and every client form decodes it, and that encoders only truncate (C12.1-C12.4). Level 'other'.",
+        "Trusts time.Duration accessor semantics. Does not decide numeric error bounds or the REST float parse.",
+        "DESIGN.md section 6, C12",
+    ),
+    "C13": (
+        "effect summaries of every function that may run before a delegating dispatch (request struct fields, URL fields, header-map contents, body use), save-before-mutate and restore-on-every-path checks, writer-parameter identity, exact three-atom pass-through condition",
+        "Frame condition for pass-through and unknown-endpoint delegation: every request cell that may be written before the dispatch is restored from a value saved before the first mutation; the response writer is not wrapped; the pass-through decision is exactly the three equalities (C13.1-C13.3). Level 'other'.",
+        "Trusts http.Request.WithContext (shallow copy) and http.Header.Clone (deep copy).",
+        "DESIGN.md section 6, C13",
+    ),
+    "C15": (
+        "write-effect enumeration over everything reachable from ServeHTTP against the configuration graph rooted at Transcoder (with a positive control rooted at NewTranscoder), must-pass Reset / deferred Put on pooled objects, who-may-touch the sync.Pools, capacity guard, absence of other cross-request state",
+        "Frame argument for history independence: request-time code writes nothing that outlives the RPC, and the only survivors (pooled buffers, (de)compressors) are reset before use on every path (C15.1-C15.4). Level 'other'.",
+        "Trusts sync.Pool and Reset contracts. Does not decide capacity-dependent behaviour or state inside dependencies.",
+        "DESIGN.md section 6, C15",
+    ),
+    "C17": (
+        "return-shape check of NewTranscoder, error-propagation check at every static call of an error-returning module function under NewTranscoder, structural witnesses (guard edge leads only to error returns) for each listed validation, loop-carried-flag analysis, path-sensitive binding condition of rule selectors, copy-per-iteration and map-replacement checks for option resolution",
+        "Decides that configuration errors are never swallowed, that each validation named by the property exists as an error edge, that a selector binds only on exact match or wildcard prefix, and that per-service options override (not mutate) defaults (C17.1-C17.4). Level 'other'; the exact accept/reject boundary is not decided.",
+        "Trusts go/ssa loop structure (dominators).",
+        "DESIGN.md section 6, C17",
+    ),
     "C18": (
         "SSA path/dominance rules: must-pass-through and may-reach over the CFG of ServeHTTP and its callees, who-may-call over a CHA call graph, origin tracing of the cancel/context pair",
         "Structural necessary conditions decided for every path of the code (not sampled): one dispatch event per path, none after/before a rejection, dispatch only under a successful validation (or not-found + unknown handler), deferred cancel paired with the context handed to the handler, no goroutines/timers. Level 'other': a static rule set, close to complete for this property because the property is about the shape of control flow.",
         "Trusts go/types + go/ssa lowering, the module call graph (static + CHA + signature-matched function values; VTA cross-check in thorough), and net/http calling ServeHTTP once per request. Does not decide what handlers do after returning.",
         "DESIGN.md section 6, C18",
+    ),
+    "C19": (
+        "path-sensitive enumeration of the GET predicates and of method resolution (boolean phis resolved per path), dominating facts at the GET return of the request-line builder, origin check of every store to Request.Method",
+        "Decides that GET is accepted only for NO_SIDE_EFFECTS methods with HTTP method GET, issued only under the three-way conjunction and within the URL limit, and carries no body (C19.1-C19.3). Level 'other'; exactness of the URL length arithmetic and GET/POST message equality are not decided.",
+        "Trusts descriptorpb's enum constant.",
+        "DESIGN.md section 6, C19",
+    ),
+    "C20": (
+        "must-pass of the dynamicpb fallback on the NotFound edge, enumeration of generated-type assumptions (proto.GetExtension, single-value assertions, package-level descriptors used on messages), range-loop must-pass in the gRPC wrapper, path-sensitive identity condition for choosing global types",
+        "Only necessary clauses of schema-source independence are decided (C20.1-C20.4); equivalence of dynamic and generated schemas over all traffic is metamorphic and not decided. Level 'other' (narrow).",
+        "Trusts protoregistry/dynamicpb contracts.",
+        "DESIGN.md section 6, C20",
     ),
 }
 
